@@ -93,10 +93,11 @@ Theorem C01_backpressure_submitted : forall c ops s tr i t,
 Proof. intros c ops s tr i t H W. destruct (drain_expiry c ops s tr i t H W) as [x [Hx _]]. now exists x. Qed.
 Print Assumptions C01_backpressure_submitted.
 
-(* ... and as soon as the client is connected with no drain loop suspended, every accepted message has been
+(* ... and as soon as the client is connected with no drain loop suspended (and the flush that follows the connected
+   notification done), every accepted message has been
    transmitted, unless its lifetime had ended (the DDrop ghost event carries the instant: x <= t) *)
 Theorem C01_backpressure_complete : forall c ops s tr,
-  drun (dinit c) ops = Some (s, tr) -> d_conn s = true -> d_parked s = 0%nat ->
+  drun (dinit c) ops = Some (s, tr) -> d_conn s = true -> d_parked s = 0%nat -> d_owed s = false ->
   forall i x, In (DAccept i x) tr -> (exists t, In (DWrote i t) tr) \/ (exists t, In (DDrop i t) tr /\ x <= t).
 Proof. exact drain_complete. Qed.
 Print Assumptions C01_backpressure_complete.
@@ -111,6 +112,11 @@ Example C01_backpressure_witness :
   end /\
   match drun (dinit false) [DSend 2 30720; DSend 0 1024; DBp true; DUp; DAdv 2000; DBp false] with
   | Some (s, tr) => written tr = [0%nat] /\ In (DDrop 1 2000) tr
+  | None => False
+  end /\
+  (* a connection subscriber sends during the connected notification: the pending messages go first *)
+  match drun (dinit false) [DSend 2 30720; DSend 2 30720; DConn; DSend 0 1024; DFlush] with
+  | Some (s, tr) => written tr = [0; 1; 2]%nat /\ d_queue s = [] /\ d_owed s = false
   | None => False
   end.
 Proof. vm_compute. repeat split; try reflexivity. do 3 right. left. reflexivity. Qed.
